@@ -110,6 +110,7 @@ static long g_fault_fired;
 static int g_locality;
 static int g_pp = 0;
 static long g_store_in_cmd;         /* number of store calls since last reset by scenario */
+static long g_store_perm_in_cmd;    /* ... of the permanent state only */
 static int g_trace_cb;              /* trace callback events */
 
 static int name_idx(const char *name) {
@@ -151,6 +152,7 @@ static TPM_RESULT cb_store(const unsigned char *data, uint32_t length, uint32_t 
     long k = g_store_calls++;
     int i = name_idx(name);
     g_store_in_cmd++;
+    if (i == ST_PERM) g_store_perm_in_cmd++;
     if (k == g_store_fail_at || (g_store_fail_sticky && g_store_fail_at >= 0 && k > g_store_fail_at)) {
         g_fault_fired++; return TPM_FAIL;
     }
@@ -348,7 +350,7 @@ static Rsp run_raw(const uint8_t *cmd, uint32_t n) {
     Rsp r; memset(&r, 0, sizeof r);
     uint32_t len = 0;
     uint8_t *copy = malloc(n ? n : 1); memcpy(copy, cmd, n);   /* exact-size heap copy: ASan sees over-reads */
-    g_polls = 0; g_in_process = 1; g_store_in_cmd = 0;
+    g_polls = 0; g_in_process = 1; g_store_in_cmd = 0; g_store_perm_in_cmd = 0;
     r.ret = TPMLIB_Process(&g_respbuf, &len, &g_respbufsize, copy, n);
     g_in_process = 0;
     free(copy);
